@@ -20,7 +20,7 @@ def main(argv=None):
     d.add_argument("prop")
     d.add_argument("--units", type=int, default=16)
     s = sub.add_parser("selftest")
-    s.add_argument("what", choices=["determinism", "sensitivity", "seeded"])
+    s.add_argument("what", choices=["determinism", "sensitivity", "seeded", "seeds"])
     s.add_argument("--props", default="C05,C06,C12")
     s.add_argument("--units", type=int, default=200)
     s.add_argument("--only", default=None)
